@@ -719,7 +719,7 @@ def spec_check(unit, idx, tree, depth=0):
         if is_closure_k(a):
             if src_k[0] != "C" or dst_k[0] != "C":
                 fails.append("opcode %d: closure constant is not a code" % i)
-            elif depth < 60:
+            elif depth < 400:
                 fails += ["in nested function %r: %s" % (dst_k[2], f) for f in spec_check(unit, n, dst_k, depth + 1)][:3]
         elif src_k[0] == "C" or src_k != dst_k:
             fails.append("opcode %d loads constant %r before the dump and %r after load" % (i, src_k[:2], dst_k[:2]))
@@ -729,6 +729,188 @@ def spec_check(unit, idx, tree, depth=0):
 
 
 # ---------------------------------------------------------------- stages
+
+# ====================================================================== size strata
+# The round-trip property quantifies over ALL functions, so besides the random small chunks every run
+# contains one compiled function per size stratum and synthetic valid dumps at sizes on both sides of
+# every integer constant declared in runtime/marshal.go (read from the source that is being built, so a
+# changed or added threshold moves / adds test points).
+import re as _re
+import sys as _sys
+_sys.setrecursionlimit(20000)
+
+
+def source_thresholds():
+    """integer constants declared in runtime/marshal.go (the overlaid file when VERIF_OVERLAY is set)"""
+    path = vlib.os.path.join(vlib.REPO, "runtime", "marshal.go")
+    ov = vlib.os.environ.get("VERIF_OVERLAY")
+    if ov and vlib.os.path.exists(ov):
+        try:
+            path = json.load(open(ov)).get("Replace", {}).get(path, path)
+        except Exception:
+            pass
+    out = {}
+    try:
+        src = open(path).read()
+    except OSError:
+        return out
+    src = _re.sub(r"//.*", "", src)
+    for m in _re.finditer(r"(?m)^\s*(?:const\s+)?([A-Za-z_]\w*)\s*(?:u?int\d*\s*)?=\s*([0-9xXa-fA-F_ <>+*()\-]+)\s*$", src):
+        inside_const = src.rfind("const", 0, m.start()) > max(src.rfind("\n)", 0, m.start()), src.rfind("func ", 0, m.start()))
+        if not (m.group(0).lstrip().startswith("const") or inside_const):
+            continue
+        try:
+            v = eval(m.group(2).replace("_", ""), {"__builtins__": {}}, {})
+        except Exception:
+            continue
+        if isinstance(v, int) and 2 <= v <= 1 << 40:
+            out[m.group(1)] = v
+    return out
+
+
+def around(t):
+    return [x for x in (t - 1, t, t + 1) if x >= 0]
+
+
+def enc_dump(t):
+    """encoder of the documented dump format (inverse of dec_dump), for synthetic valid dumps"""
+    out = bytearray([6, 0, 4])
+
+    def s8(b):
+        out.extend(struct.pack("<q", len(b)))
+        out.extend(b)
+
+    def go(t):
+        if t[0] == "I":
+            out.append(1)
+            out.extend(struct.pack("<q", t[1]))
+        elif t[0] == "F":
+            out.append(2)
+            out.extend(struct.pack("<Q", t[1]))
+        elif t[0] == "S":
+            out.append(4)
+            s8(t[1])
+        else:
+            _, src, nm, ops, lines, ks, uc, rc, cc, ups = t
+            out.append(5)
+            s8(src)
+            s8(nm)
+            out.extend(struct.pack("<q", len(ops)))
+            out.extend(struct.pack("<%dI" % len(ops), *ops))
+            out.extend(struct.pack("<q", len(lines)))
+            out.extend(struct.pack("<%di" % len(lines), *lines))
+            out.extend(struct.pack("<q", len(ks)))
+            for k in ks:
+                go(k)
+            out.extend(struct.pack("<3hq", uc, rc, cc, len(ups)))
+            for u in ups:
+                s8(u)
+    go(t)
+    return bytes(out)
+
+
+def leaf(i=0, nops=2):
+    return ("C", b"s", b"f%d" % i, [0x48000000 + (j & 0xFF) for j in range(nops)], [1] * nops, [], 0, 1, 0, [])
+
+
+def synthetic_strata(thresholds, quick):
+    """(description, dump bytes) of valid dumps built by hand: sizes around every threshold and the fixed strata"""
+    out = []
+    sizes = set()
+    for t in thresholds.values():
+        sizes.update(around(t))          # bytes of a string / items of an array
+        sizes.update(around(t // 4))     # items of 4-byte arrays whose byte size is around t
+    for n in sorted(sizes):
+        if n <= 300000:
+            out.append(("string-bytes=%d" % n, enc_dump(("C", b"s", b"m", [0], [1], [("S", bytes((i * 7 + 3) & 0xFF for i in range(n)))], 0, 1, 0, []))))
+        if n <= 140000:
+            ops = [(0x48000000 + i) & 0xFFFFFFFF for i in range(n)]
+            out.append(("code-items=%d" % n, enc_dump(("C", b"s", b"m", ops, [1], [], 0, 1, 0, []))))
+            out.append(("line-items=%d" % n, enc_dump(("C", b"s", b"m", [0], [(i % 1000) - 3 for i in range(n)], [], 0, 1, 0, []))))
+    counts = set([1, 10, 199, 200, 201, 1000])
+    depths = set([1, 2, 10, 30, 59, 60, 61])
+    for t in thresholds.values():
+        if t <= 5000:
+            counts.update(around(t))
+        if t <= 1500:
+            depths.update(around(t))
+    for n in sorted(counts):
+        if n >= 1:
+            out.append(("sibling-functions=%d" % n, enc_dump(("C", b"s", b"m", [0], [1], [leaf(i) for i in range(n)], 0, 1, 0, []))))
+            out.append(("upvalue-names=%d" % n, enc_dump(("C", b"s", b"m", [0], [1], [], 0, 1, 0, [b"u%d" % i for i in range(n)]))))
+            out.append(("scalar-constants=%d" % n, enc_dump(("C", b"s", b"m", [0], [1], [("I", i * 1000003) if i % 2 else ("F", i) for i in range(n)], 0, 1, 0, []))))
+    for d in sorted(depths):
+        t = leaf(0)
+        for lvl in range(d):
+            t = ("C", b"s", b"d%d" % lvl, [0], [1], [t, ("I", lvl)], 0, 1, 0, [])
+        out.append(("nesting-depth=%d" % d, enc_dump(t)))
+    # siblings at several levels: 3 levels of 12 functions each (1884 function constants in total)
+    t = leaf(0)
+    for lvl in range(3 if quick else 4):
+        t = ("C", b"s", b"w%d" % lvl, [0], [1], [t] * 12, 0, 1, 0, [])
+    out.append(("function-tree-12^%d" % (3 if quick else 4), enc_dump(t)))
+    return out
+
+
+def strata_chunks(thresholds, quick=False):
+    """(stratum, Lua chunk) compiled functions, one per size stratum; every chunk leaves closed functions in FS"""
+    out = []
+    t = thresholds.get("maxEagerRead", 1 << 16)
+    # 3 opcodes per 'x = x + k' statement (measured; the histogram in evidence shows what was reached)
+    for name, nstat in ([("opcodes-above-%d-bytes" % t, t // 4 // 3 + 400)] if quick else
+                        [("opcodes-below-%d-bytes" % t, max(10, t // 4 // 3 - 300)), ("opcodes-above-%d-bytes" % t, t // 4 // 3 + 400),
+                         ("opcodes-near-compiler-limit", 10500)]):
+        body = ["function F1(a)", "  local x = tonumber(a) or 0"]
+        body += ["  x = x + %d" % (i % 90 + 1) for i in range(nstat)]
+        body += ["  if x > 1e9 then error('big') end", "  return x", "end", "reg(F1)", "FS = {F1}", ""]
+        out.append((name, "\n".join(body)))
+    # string constants around the threshold, in one function; and a constant table of more than t bytes in total
+    lits = ['"%s"' % ("abcdefghij" * (n // 10 + 1))[:n] for n in around(t)]
+    out.append(("string-constants-around-%d" % t,
+                "function F1(a)\n  local p, q, r = %s\n  return #p, #q, #r, p:sub(-3), (tonumber(a) or 0) + #q\nend\nreg(F1)\nFS = {F1}\n" % ",\n    ".join(lits)))
+    many = ["  t[#t + 1] = \"%s-%04d\"" % ("k" * 236, i) for i in range(t // 240 + 40)]
+    out.append(("constant-table-above-%d-bytes" % t, "function F1(a)\n  local t = {}\n" + "\n".join(many) +
+                "\n  return #t, t[tonumber(a) or 1], t[#t]\nend\nreg(F1)\nFS = {F1}\n"))
+    # number of function constants (siblings) in one function
+    for k in ((10, 201, 1000) if quick else (1, 10, 199, 200, 201, 1000)):
+        body = ["function F1(i, x)", "  local M = {}"]
+        body += ["  function M.f%d(y) return (tonumber(y) or 0) + %d end" % (j, j) for j in range(1, k + 1)]
+        body += ["  local f = M['f' .. tostring(math.tointeger(tonumber(i) or 1) or 1)] or M.f1", "  return f(x), f(%d)" % k, "end", "reg(F1)", "FS = {F1}", ""]
+        out.append(("sibling-functions-%d" % k, "\n".join(body)))
+    # nesting depth
+    for d in ((10, 60) if quick else (1, 10, 30, 60)):
+        src = "return x + %d, (...)" % d
+        for lvl in range(d):
+            src = "return (function(...) local v%d = %d; %s end)(v%d, ...)" % (lvl, lvl, src, lvl) if lvl else "return (function(...) local v0 = 0; %s end)(...)" % src
+        out.append(("nesting-depth-%d" % d, "function F1(x, ...)\n  x = tonumber(x) or 0\n  %s\nend\nreg(F1)\nFS = {F1}\n" % src))
+    # closures created in loops (fresh upvalue per iteration), kept and called after the loop
+    out.append(("closures-in-loops", """function F1(n, k)
+  n = math.min(tonumber(n) or 3, 20)
+  local fs = {}
+  for i = 1, n do
+    local c = i * 1000003
+    fs[#fs + 1] = function(y) c = c + 1; return i, c, y end
+    for j = 1, 2 do
+      fs[#fs + 1] = function() return i * 10 + j, "loop-constant-string" end
+    end
+  end
+  local w = 0
+  while w < 3 do
+    w = w + 1
+    local captured = w * 2.5
+    fs[#fs + 1] = function() captured = captured + 0.25; return captured end
+  end
+  local out = {}
+  for _, f in ipairs(fs) do out[#out + 1] = select(2, f(k)) or 0 end
+  emit(#fs, out[1], out[2], out[#out])
+  return fs[1](k)
+end
+reg(F1)
+FS = {F1}
+"""))
+    return out
+
+
 def parse_chunk_line(line):
     f = line.split(" ")
     if len(f) < 2 or f[1] != "ok":
@@ -743,9 +925,9 @@ def parse_chunk_line(line):
 
 
 def lua_result_key(line):
-    """outcome of a lua-engine line without the id and without the context usage"""
+    """outcome of a lua-engine line: status, trace, results, error, output (not the id, context usage, allocation, wall time)"""
     f = line.split(" ")
-    return " ".join(x for x in f[1:] if not x.startswith("X:") and not x.startswith("A:"))
+    return " ".join(f[1:2] + [x for x in f[2:] if x[:2] in ("T:", "R:", "E:", "O:")])
 
 
 def mutations(rng, d, offs, nrand):
@@ -846,7 +1028,14 @@ def run(tier, seed):
             if fn.endswith(".lua"):
                 chunks.append(open(vlib.os.path.join(corpus, fn)).read())
     ncorpus = len(chunks)
-    nchunks = 120 if quick else 1200
+    thresholds = source_thresholds()
+    ck.cov["source_thresholds"] = thresholds
+    strata_of = {}
+    for name, src in strata_chunks(thresholds, quick):
+        strata_of[len(chunks)] = name
+        chunks.append(src)
+    nstrata = len(strata_of)
+    nchunks = 100 if quick else 1200
     for i in range(nchunks):
         g = ChunkGen(rng.fork(), size=(0.5 if i % 3 == 0 else 1.0 if i % 3 == 1 else 2.0), hist=hist)
         chunks.append(g.chunk())
@@ -880,6 +1069,8 @@ def run(tier, seed):
         unit, parts = pc
         olines.append("U%d unit %s" % (i, unit))
         for j, p in enumerate(parts):
+            if i in strata_of and j != 1:
+                continue          # a stratum chunk is only a wrapper around its function F1
             cid = "%d.%d" % (i, j)
             closures.append((i, j, unit, p))
             olines.append("u%s dumpu %s" % (cid, hz(p["idx"])))
@@ -918,6 +1109,32 @@ def run(tier, seed):
                 fails.append("closure's code is not part of its unit")
             else:
                 fails += spec_check(unit_cache[i], p["idx"], tree)
+            def _shape(t):
+                subs = [_shape(k) for k in t[5] if k[0] == "C"]
+                nf = 1 + sum(x[0] for x in subs)
+                dp = 1 + max([x[1] for x in subs] or [0])
+                mo = max([len(t[3])] + [x[2] for x in subs])
+                mc = max([len(k[1]) for k in t[5] if k[0] == "S"] + [x[3] for x in subs] + [0])
+                return nf, dp, mo, mc
+            nfun, ndep, maxops, maxstr = _shape(tree)
+            nops = len(tree[3])
+            bucket = lambda v, bs: next(("<=%d" % b for b in bs if v <= b), ">%d" % bs[-1])
+            ck.count("size:opcodes-of-function:" + bucket(nops, [16, 128, 1024, 4096, 16383, 16384, 32767]))
+            ck.count("size:code-bytes-vs-maxEagerRead:" + ("above" if 4 * nops > thresholds.get("maxEagerRead", 1 << 16) else "at-or-below"))
+            ck.count("size:functions-in-dump:" + bucket(nfun, [1, 2, 5, 11, 50, 199, 200, 201, 202, 1001]))
+            ck.count("size:nesting-depth-of-dump:" + bucket(ndep, [1, 2, 3, 5, 11, 31, 61]))
+            ck.count("size:longest-string-constant:" + bucket(maxstr, [0, 16, 256, 4096, 65535, 65536, 65537]))
+            ck.count("size:constants-bytes-of-function:" + bucket(sum(len(k[1]) for k in tree[5] if k[0] == "S") + 9 * len(tree[5]), [256, 4096, 65536]))
+            mx = ck.cov.setdefault("size_maxima", {"opcodes": 0, "functions_in_one_dump": 0, "nesting_depth": 0, "string_constant_bytes": 0, "dump_bytes": 0, "constants_of_one_function": 0})
+            mx["opcodes"] = max(mx["opcodes"], nops)
+            mx["functions_in_one_dump"] = max(mx["functions_in_one_dump"], nfun)
+            mx["nesting_depth"] = max(mx["nesting_depth"], ndep)
+            mx["string_constant_bytes"] = max(mx["string_constant_bytes"], maxstr)
+            mx["dump_bytes"] = max(mx["dump_bytes"], len(d1))
+            mx["constants_of_one_function"] = max(mx["constants_of_one_function"], len(tree[5]))
+            if i in strata_of and j == 1:
+                ck.count("stratum:" + strata_of[i])
+                ck.cov.setdefault("strata", {})[strata_of[i]] = {"opcodes": nops, "functions": nfun, "depth": ndep, "longest_string": maxstr, "dump_bytes": len(d1)}
             nk = len(tree[5])
             ck.count("closure:consts:%s" % ("0" if nk == 0 else "1-9" if nk < 10 else "10-99" if nk < 100 else "100+"))
             nest = sum(1 for k in tree[5] if k[0] == "C")
@@ -963,6 +1180,14 @@ def run(tier, seed):
         if d:
             im_diffs.append((d, i, j, (model[3 * n] + " / " + model[3 * n + 1])[:600]))
     ck.log("stage A: %d chunks (%d ok), %d closures, S failures %d, IM differences %d" % (len(chunks), len(good_chunks), len(closures), s_fail, len(im_diffs)))
+    st = ck.cov.get("strata", {})
+    t_eager = thresholds.get("maxEagerRead", 1 << 16)
+    missing = [n for n in strata_of.values() if n not in st]
+    if not any(4 * v["opcodes"] > t_eager for v in st.values()) or not any(v["functions"] >= 1001 for v in st.values()) or \
+            not any(v["depth"] >= 60 for v in st.values()) or not any(v["longest_string"] > t_eager for v in st.values()):
+        missing.append("a size stratum is not reached (opcodes above the eager-read threshold / 1000 sibling functions / depth 60 / string above the threshold)")
+    if missing and s_fail == 0:
+        ck.violation("size strata of the generator not reached: " + "; ".join(missing)[:300], {"kind": "generator", "strata": st, "missing": missing}, no_input=True)
     for k, v in hist.items():
         ck.count("gen:" + k, v)
     if closures:
@@ -1024,6 +1249,17 @@ def run(tier, seed):
             if m not in seen and len(m) < 20000:
                 seen.add(m)
                 muts.append((kind, m))
+    # synthetic valid dumps at the size strata and on both sides of every threshold of marshal.go
+    syn = []
+    for name, d in synthetic_strata(thresholds, quick):
+        if quick and len(d) > 200000 and not name.endswith("=%d" % (thresholds.get("maxEagerRead", 1 << 16) + 1)):
+            continue      # quick: of the 4-byte arrays with about maxEagerRead ITEMS (4x the threshold in bytes) only one
+        syn.append(("size:" + name, d))
+        ck.count("synthetic:" + name.split("=")[0])
+        if len(d) <= 100000:
+            syn.append(("size:" + name + ":exact-budget", d))
+            syn.append(("size:" + name + ":truncated", d[:-1]))
+    muts = syn + muts
     # corpus: minimised past failures (one hex stream per line), run first forever
     cs = vlib.os.path.join(vlib.VERIF, "corpus", "C13", "streams.txt")
     if vlib.os.path.exists(cs):
@@ -1052,13 +1288,20 @@ def run(tier, seed):
     ulines, mlines, llines = [], [], []
     for n, (kind, m) in enumerate(muts):
         bud = 0 if n % 2 == 0 else rng.choice(budgets + [len(m), max(0, len(m) - 3), len(m) + 1])
+        if kind.startswith("size:"):
+            bud = len(m) - 3 if kind.endswith(":exact-budget") else 0
         ulines.append("x%d unm %x %s" % (n, bud, hx(m)))
         mlines.append("x%d unm %x %x %s" % (n, LIM, bud, hx(m)))
         src = 'local f, e = load(%s, "m", "b"); emit(type(f), e)' % lua_str(m) if bud == 0 else "emit('skipped')"
         llines.append("l%d %s" % (n, src.encode().hex()))
     t0 = time.time()
     rcm, mout, em = run_oracle(oracle, mlines)
-    _, lmod, _ = run_oracle(oracle, ["y%d load %x 0 %s" % (n, LIM, hx(m)) for n, (kind, m) in enumerate(muts)])
+    # (for the large size-strata streams the load verdict follows from the unmarshal verdict: no second pass of the model)
+    _, lmod, _ = run_oracle(oracle, ["y%d load %x 0 %s" % (n, LIM, hx(m) if not (kind.startswith("size:") and len(m) > 20000) else "-") for n, (kind, m) in enumerate(muts)])
+    for n, (kind, m) in enumerate(muts):
+        if kind.startswith("size:") and len(m) > 20000 and n < len(lmod) and n < len(mout):
+            f = mout[n].split(" ")
+            lmod[n] = "y%d %s" % (n, ("fun 0" if f[2].startswith("C,") else "notfun") if f[1] == "val" else "notfun" if f[1] == "nil" else "err " + f[2] if f[1] == "err" else f[1])
     if len(lmod) != len(muts):
         ck.violation("oracle crashed on malformed streams (load)", {"kind": "oracle-crash"}, no_input=True)
         lmod += ["y fuel"] * (len(muts) - len(lmod))
@@ -1218,7 +1461,8 @@ def run(tier, seed):
     ck.cov["property_level_failures"] = s_fail
     ck.cov["exhaustive"] = False
     return ck.finish(
-        rule="(A) %d generated Lua chunks (+%d corpus): every closure the chunk creates (closed functions, nested closures with upvalues, the chunk itself): "
+        rule="(A) %d generated Lua chunks (+%d corpus, + one compiled function per size stratum: opcodes below/above the eager-read threshold of marshal.go and near the compiler limit, "
+             "string constants around the threshold, constant table above it, 1/10/199/200/201/1000 sibling functions, nesting depth 1/10/30/60, closures in loops): every closure the chunk creates (closed functions, nested closures with upvalues, the chunk itself): "
              "bytes of string.dump vs extracted marshal(refactor_unit(export)), export(load(dump)) vs model, dump(load(dump f)) = dump f, independent Python decoding "
              "of the dump, first-use order/slimness/lookup preservation of the constants; (B) each chunk run twice on %d argument tuples per closed function, "
              "f directly vs load(string.dump(f)): emit traces, results, error values with line info (1 in 3 inside a cpu/mem-limited context); "
